@@ -117,7 +117,7 @@ class C13(Sim):
     def cases(self, rng, run: int, tier: str) -> Iterator[dict]:
         arm = ["clean", "clean", "faults", "crash"][run % 4]
         general_only = rng.random() < 0.5
-        sp = S.gen_spec(rng, activations=["General"] if general_only else S.ACTIVATIONS, fn_reads_output=rng.random() < 0.3,
+        sp = S.gen_spec(rng, activations=S.GENERAL if general_only else S.ACTIVATIONS, fn_reads_output=rng.random() < 0.3,
                         cascade=rng.random() < 0.5, norm_functions=True, user_terms=["DomainRamp", "InputGain"])
         if rng.random() < 0.5:  # the property's hard cases: make sure a Linear / Function term exists
             o = rng.choice(sp["outputs"])
@@ -135,7 +135,7 @@ class C13(Sim):
                         b["activation"]["rules"] = 2
                     if b["activation"]["cls"] == "First":
                         b["activation"].update(rules=2, threshold=0.0)
-        vector_ok = all(b["activation"] and b["activation"]["cls"] == "General" for b in sp["blocks"])
+        vector_ok = all(b["activation"] and b["activation"]["cls"] in ("General", "UserGeneral") for b in sp["blocks"])
         if arm == "crash":
             yield from self._crash_cases(rng, sp, vector_ok, tier)
             return
